@@ -7,8 +7,10 @@ CONSTANTS
   LocSeq <- Loc2
   FreeLocs = FALSE
   BatchSizes = {1, 2, 3}
-  PerIns = 2
+  PerIns = 1
   PerFl = 1
-  LockScope = "code"
+  LockScope = "fix"
+  SigMode = "proc"
 VIEW View
-INVARIANTS TypeOK OnlyRacesHurt NeverTwice LocInternOK TxnOwner EmitCase
+INVARIANTS TypeOK AllPersistedOnce NoCrash FlushHoldsLock NeverTwice LocInternOK TxnOwner EmitCase
+PROPERTIES Terminates Refines
